@@ -1528,6 +1528,7 @@ pub fn check_uac(case: &UacCase, out: &mut CaseOut) {
 
 pub fn property() -> Property {
     Property {
+        fuzz: vec![],
         id: "C11",
         rule: "cases = dialog-creating INVITE/2xx pairs (0..4 Record-Route values with distinct URIs, lr/other/header parameters, one or several header lines; random tags; Contact with URI and header parameters, display names, addr-spec form; From/To with display names) in both roles - UAS: peer INVITE injected, Dialog::new_server (directly with ServerInvTsx, or through Acceptor/Session), responses for provisional/2xx/failure codes through create_response; UAC: ClientDialogBuilder + send_invite, or Initiator/Session, peer answers 2xx - followed by 1..10 create_request calls over BYE/INFO/INVITE/PRACK/UPDATE/MESSAGE (optionally from 4 OS threads), Session::terminate, and the session-refresh re-INVITE + ACK. Non-trivial = at least 2 Record-Route entries, or UAC role with a request after the INVITE, or a provisional (>100)/failure response; distinct by hash of the case.",
         assumptions: vec![
